@@ -325,6 +325,15 @@ def run_file(path):
     with open(path) as f:
         p = json.load(f)
     kind = p.get("kind")
+    # every check runs with the same process history (a differently configured caller-supplied converter and a
+    # customised default converter exist before the analysed converter is created, vlib.xhrt.foreign_history); a replay
+    # runs in that history too, so that violations which need it reproduce from the file alone
+    try:
+        from .xhrt import foreign_history
+
+        foreign_history()
+    except ImportError:
+        pass
     if kind == "roundtrip":
         ok, detail, _ = roundtrip(p["json"], root_type(p["root"]))
         return (not ok), detail
